@@ -43,8 +43,12 @@ pub trait ExtractAttribute {
         let will_fwd_any = self.forward_attrs().will_forward_any();
 
         if !(will_parse_any || will_fwd_any) {
+            // Nothing is read from the attributes, but a declared `attrs` field still has to
+            // receive its (empty) list or its initializer would find it unset.
+            let fwd_population = self.forward_attrs().as_value_populator();
             return quote! {
                 #declarations
+                #fwd_population
             };
         }
 
